@@ -1,7 +1,7 @@
 (** C12 — a fitted model is self-consistent and survives save/load unchanged.
     Property theorems only. *)
 From Coq Require Import ZArith QArith List String Bool.
-From Leaspy Require Import Io.SaveLoad Io.SaveLoadExec Io.SaveLoadProofs Io.EndOfFit Io.EndOfFitProofs.
+From Leaspy Require Import Io.SaveLoad Io.SaveLoadExec Io.SaveLoadProofs Io.SaveLoadIdem Io.EndOfFit Io.EndOfFitProofs.
 From LeaspyGen Require Import GenC12.
 Import ListNotations.
 Open Scope string_scope.
@@ -81,6 +81,25 @@ Proof.
   exists dct, m'. split; [exact Hs|]. split; [exact Hl|]. rewrite Hs. apply Hrest.
 Qed.
 Print Assumptions C12_idempotent_partial.
+
+(** save∘load is a fixed point after ONE round, with NO hypothesis on the shapes, the precision or the mixing matrix the
+    model holds: for every well-formed default-named model, the file written by the reloaded model reloads into a model
+    that writes the same file, has the same parameters as the first reload and the same kind, name, features, dimension,
+    sources, observation models, cluster / event counts and fit metrics as the original.  The hypothesis on the cast
+    (casting twice = casting once, on the numbers the model holds) is a fact about rounding; for the executable float32
+    rounding it is decided by computation on every value of every run (r32 fixed-point cases of the correspondence).
+    With [C12_float64_refuted] / [C12_scalar_noise_shape_refuted] (the FIRST round may change the file) this is the exact
+    extent of idempotence of the faithful model. *)
+Theorem C12_idempotent_after_one :
+  forall (cast32 : Q -> Q) (derive : mkind -> Z -> Z -> list (string * tensor) -> tensor) (ver : string) (m : model),
+    wf m -> default_named m -> cast_idem_on cast32 m ->
+    exists dct m1, save ver m = Ok dct /\ load cast32 derive dct = Ok m1 /\
+      exists dct1 m2, save ver m1 = Ok dct1 /\ load cast32 derive dct1 = Ok m2 /\
+        save ver m2 = Ok dct1 /\ m_params m2 = m_params m1 /\ m_kind m2 = m_kind m /\ m_name m2 = m_name m /\
+        m_features m2 = m_features m /\ dimension m2 = dimension m /\ m_sdim m2 = m_sdim m /\ m_obs m2 = m_obs m /\
+        m_nclusters m2 = m_nclusters m /\ m_nb_events m2 = m_nb_events m /\ m_fit_metrics m2 = m_fit_metrics m.
+Proof. exact idempotent_after_one. Qed.
+Print Assumptions C12_idempotent_after_one.
 
 (** The unrestricted statements are false of the code (each witness is replayed on the implementation by the check). *)
 Theorem C12_instance_name_refuted :
